@@ -66,6 +66,8 @@ PrefixP1 == Disc("p1")
 PrefixP1P2 == Disc("p1") \o Disc("p2")
 
 Emit == PrintT(<<"B", ToJson(hist')>>)
+\* full history tree (no VIEW): only the leaves are printed, every shorter history is a prefix of one
+EmitLeaf == Len(hist') = MaxLen + Len(Prefix) => PrintT(<<"B", ToJson(hist')>>)
 
 ASSUME EmitTopo == PrintT(<<"T", ToJson([peers |-> Peers, lf |-> LF, lfn |-> LFn, rf |-> RF])>>)
 Topology == [peers |-> Peers, lf |-> LF, lfn |-> LFn, rf |-> RF]
